@@ -12,6 +12,12 @@ def text(node, path, default=None):
     return default if v is None else v.strip()
 
 
+def raw(node, path, default=None):
+    """text of a name / title element exactly as written (no stripping: blanks at the ends belong to the text)"""
+    v = node.findtext(path)
+    return default if v is None else v
+
+
 def read(xml_text):
     """-> {'title', 'composer', 'part_list': [{'id','name','instrument','program'}], 'parts': [{'id',
     'measures': [{'number','divisions','beats','beat_type','fifths','mode','notes': [...]}]}]}
@@ -22,16 +28,16 @@ def read(xml_text):
         raise MXError("not well-formed: %s" % e)
     if root.tag != "score-partwise":
         raise MXError("root element is %r" % root.tag)
-    out = {"title": text(root, "movement-title"), "composer": None, "part_list": [], "parts": []}
+    out = {"title": raw(root, "movement-title"), "composer": None, "part_list": [], "parts": []}
     for c in root.findall("identification/creator"):
         if c.get("type") == "composer":
-            out["composer"] = (c.text or "").strip()
+            out["composer"] = c.text or ""
     pl = root.find("part-list")
     if pl is None:
         raise MXError("no part-list")
     for sp in pl.findall("score-part"):
-        out["part_list"].append({"id": sp.get("id"), "name": text(sp, "part-name", ""),
-                                 "instrument": text(sp, "score-instrument/instrument-name"),
+        out["part_list"].append({"id": sp.get("id"), "name": raw(sp, "part-name", ""),
+                                 "instrument": raw(sp, "score-instrument/instrument-name"),
                                  "program": text(sp, "midi-instrument/midi-program")})
     for part in root.findall("part"):
         ms = []
